@@ -662,7 +662,10 @@ loop:
 	case "prefilled":
 		batches := (uint64(n) + q - 1) / q
 		// every batch ends with a sleep that may overshoot by what the canary saw
-		if bound := time.Duration(batches+1)*interval + slack + time.Duration(batches)*lag; end.Sub(t0) > bound {
+		// (not for intervals below 2 ms: there the granularity of time.Sleep itself, about a
+		// millisecond per pause on a busy machine, dominates and "about ceil(N/Q) intervals"
+		// says nothing checkable; those configurations serve the lower bound of C04 only)
+		if bound := time.Duration(batches+1)*interval + slack + time.Duration(batches)*lag; interval >= 2*time.Millisecond && end.Sub(t0) > bound {
 			b.fail("C12 limit: %d prefilled elements took %v, more than (ceil(N/Q)+1) intervals + slack = %v (Q=%d, Interval=%v)", n, end.Sub(t0), bound, q, interval)
 		}
 	case "small":
